@@ -510,8 +510,24 @@ impl UniverseNet {
             "cname_loop_inline" => {
                 clear(&mut resp);
                 let other = child_name("loopb", &qname);
+                let third = child_name("loopc", &qname);
                 resp.answers.push(rr(&qname, &format!("CNAME {other}"), 60));
-                resp.answers.push(rr(&other, &format!("CNAME {qname}"), 60));
+                match h % 4 {
+                    // the loop passes through the question name ...
+                    0 => resp.answers.push(rr(&other, &format!("CNAME {qname}"), 60)),
+                    // ... or is only reached from it: a self-loop, a two-cycle, a three-link lasso
+                    1 => resp.answers.push(rr(&other, &format!("CNAME {other}"), 60)),
+                    2 => {
+                        resp.answers.push(rr(&other, &format!("CNAME {third}"), 60));
+                        resp.answers.push(rr(&third, &format!("CNAME {other}"), 60));
+                    }
+                    _ => {
+                        let fourth = child_name("loopd", &qname);
+                        resp.answers.push(rr(&third, &format!("CNAME {fourth}"), 60));
+                        resp.answers.push(rr(&fourth, &format!("CNAME {third}"), 60));
+                        resp.answers.push(rr(&other, &format!("CNAME {third}"), 60));
+                    }
+                }
             }
             "cname_to_loop" => {
                 clear(&mut resp);
